@@ -249,6 +249,12 @@ def make_case(rng, point, scene, kindname, variant):
     set_lock_rec(S2, locked)
     case = {"kind": kindname, "front": front, "self": S2, "others": others, "out": out, "opts": o, "threads": threads,
             "none_pids": scene["none_pids"], "none_codes": scene["none_codes"]}
+    # what fn does with the tensor it is handed (in-place calls): a fresh result / the argument itself, untouched / the argument
+    # updated in place and returned / updated in place and None returned
+    case["fnvar"] = rng.choice(["fresh", "fresh", "ident", "mutate", "mutate", "mutate_none"]) \
+        if (inplace and kindname in ("regular", "sub", "tc", "lazy")) else "fresh"
+    if kindname == "sub":
+        case["sub_index"] = rng.choice(["int", "slice", "list", "tensor", "mask"])
     if kindname == "lazy":
         case["members"] = copy.deepcopy(scene["members"])
         for m in case["members"]:
@@ -373,6 +379,7 @@ def run_real(case, threads=None):
 def run_real_(case, threads=None):
     """build, call, observe.  Returns a dict of canonical observations; never raises."""
     B = I.Built()
+    B.sub_index = case.get("sub_index", "int")
     kindname = case["kind"]
     res = {}
     try:
@@ -393,8 +400,13 @@ def run_real_(case, threads=None):
                     others[0] = selfobj
     except Exception as e:  # noqa: BLE001
         return {"build_error": f"{type(e).__name__}: {e}"}
-    before = {"self": I.obs(selfobj, B, light=True), "others": [I.obs(x, B, light=True) for x in others], "out": I.obs(outobj, B, light=True)}
-    fn = I.make_fn(case["opts"]["named"], set(case["none_pids"]), set(case["none_codes"]))
+    sub_adv = kindname == "sub"
+
+    def obs_self():
+        # the leaves of a sub-tensordict under a list / tensor / mask index are gathered copies: observed by content
+        return I.obs(selfobj, B, with_ident=False) if sub_adv else I.obs(selfobj, B, light=True)
+    before = {"self": obs_self(), "others": [I.obs(x, B, light=True) for x in others], "out": I.obs(outobj, B, light=True)}
+    fn = I.make_fn(case["opts"]["named"], set(case["none_pids"]), set(case["none_codes"]), variant=case.get("fnvar", "fresh"))
     th = case["threads"] if threads is None else threads
     ran = []
     try:
@@ -428,14 +440,14 @@ def run_real_(case, threads=None):
     res["ran"] = ran
     try:
         cyc_out = outobj is not None and I.has_cycle(outobj)
-        res["after"] = {"self": I.obs(selfobj, B, light=True), "others": [I.obs(x, B, light=True) for x in others],
+        res["after"] = {"self": obs_self(), "others": [I.obs(x, B, light=True) for x in others],
                         "out": "cyclic" if cyc_out else I.obs(outobj, B, light=True)}
     except RecursionError:
         res["after"] = {"self": None, "others": [], "out": "cyclic"}
     res["before"] = before
     if kindname == "sub":
         try:
-            res["junk_row_intact"] = all(bool((v == -1).all()) for v in B.parent[1].values(True, True) if isinstance(v, torch.Tensor))
+            res["junk_row_intact"] = all(bool((v == -1).all()) for v in B.parent[B.junk_idx].values(True, True) if isinstance(v, torch.Tensor))
         except Exception:  # noqa: BLE001
             res["junk_row_intact"] = None
     return res
@@ -488,8 +500,8 @@ def model_nones(case, trees):
             if not p:
                 continue
             if e[0] in ("L", "T"):
-                if e[1] // 8 in pids:
-                    ids.append(e[1])
+                if e[1] // 8 in pids or (e[0] == "L" and case.get("fnvar") == "mutate_none"):
+                    ids.append(e[1])             # (mutate_none: every call on a tensor returns None)
             elif I.abs_code(e) in codes:
                 ids.append(e[1])
     return ids
@@ -498,6 +510,8 @@ def model_nones(case, trees):
 def model_line(case, ran=None):
     """the protocol line for the extracted model, or None where no model applies (aliased operands; a _SubTensorDict with
     checked=True and out= + device= or a thread pool)"""
+    if case["kind"] == "wb":
+        return wb_line(case)
     o = case["opts"]
     kindname = case["kind"]
     if kindname == "alias":
@@ -550,6 +564,7 @@ class Eval:
     """evaluation of the model's answer (terms over the free function) into the canonical observation format"""
     def __init__(self, case):
         self.tens = {}
+        self.fnvar = case.get("fnvar", "fresh")
         trees = []
         if case["kind"] == "lazy":
             trees = list(case["members"]) + [m for ms in case["others_members"] for m in ms] + (list(case["out_members"]) if case["out"] is not None else [])
@@ -587,6 +602,8 @@ class Eval:
         if v[0] == "old":
             return self.tens[v[1]].reshape(-1).tolist()
         _, key, item, args = v
+        if self.fnvar == "ident" and item[0] == "L" and item[2] != "new" and item[2][0] == "old":
+            return self.tens[item[2][1]].reshape(-1).tolist()        # fn hands back its argument untouched
         key = None if key == "none" else (key[1][0] if len(key[1]) == 1 else tuple(key[1]))
         codes = [self.arg_code(item)] + [self.arg_code(a) for a in args]
         h = I.combine(key, codes)
@@ -837,6 +854,8 @@ def check_lazy_apply_(case, mres=None):
             cnt["model:compared"] = 1
             cnt["model:compared lazy apply_"] = 1
             io = impl_obs_for_model(case, real)
+            if case.get("fnvar") == "mutate_none":
+                io, mo = blind_obs(io), blind_obs(mo)
             if not same_obs(io, mo):
                 mism.append(("apply_:result", case, io, mo))
     return fails, mism, cnt, real
@@ -1021,6 +1040,8 @@ def check_case(case, mres):
         else:
             count("model:compared")
             io = impl_obs_for_model(case, real)
+            if case.get("fnvar") == "mutate_none":
+                io, mo = blind_obs(io), blind_obs(mo)
             loose = kindname in ("sub", "tc", "params")
             if loose and hard_gray:
                 count("model:not-compared (gray in-place write on a view / wrapper)")
@@ -1059,6 +1080,27 @@ def loosen(t):
     if t[0] == "T":
         return ["T", "-", t[2], [t[3][0], t[3][1], t[3][2] or None]]
     return ["N", "-", [t[2][0], t[2][1], t[2][2] or None], [[k, loosen(c)] for k, c in t[3]]]
+
+
+def blind_vals(t):
+    """leaf values hidden (fn updates its argument and returns None: whether the update reaches the container depends on
+    whether the container hands out its own tensors)"""
+    if t is None or isinstance(t, str):
+        return t
+    if t[0] == "L":
+        return ["L", t[1], "-"]
+    if t[0] == "T":
+        return t
+    return ["N", t[1], t[2], [[k, blind_vals(c)] for k, c in t[3]]]
+
+
+def blind_obs(ob):
+    ob = dict(ob)
+    if ob.get("ret") is not None:
+        ob["ret"] = blind_vals(ob["ret"])
+    if ob.get("members") is not None:
+        ob["members"] = [blind_vals(m) for m in ob["members"]]
+    return ob
 
 
 def same_obs(io, mo, loose=False):
@@ -1257,13 +1299,123 @@ def inplace_identity(before, got):
     return None
 
 
+# ================================================================== the in-place write-back at one level (Model/C20_WriteBack.v)
+WB_KINDS = ["td", "sub:int", "sub:slice", "sub:list", "sub:tensor", "sub:mask"]
+WB_FRONTS = ["apply_", "apply", "named_apply", "fast"]
+
+
+def gen_wb_case(rng):
+    keys = rng.sample(KEYS, rng.choice([1, 2, 3, 4]))
+    items = []
+    for i, k in enumerate(keys):
+        x = 10 * (i + 1)
+        r = rng.choice(["fresh", "fresh", "same", "mut", "mut", "mutnone", "none"])
+        items.append([k, x, r, 1000 + 7 * x + rng.randrange(5)])
+    return {"kind": "wb", "container": rng.choice(WB_KINDS), "front": rng.choice(WB_FRONTS), "n": rng.choice([1, 2, 3]), "items": items,
+            # (the fields the collection loop reads)
+            "self": ["N", 0, [[], None, None, False], items], "opts": {"inplace": True}, "threads": 0, "perm": [], "fnvar": "per-key"}
+
+
+def wb_line(c):
+    def ret(r, v):
+        return Sym(r) if r in ("same", "none") else [Sym(r), v]
+    copies = c["container"] in ("sub:list", "sub:tensor", "sub:mask")
+    return sx([Sym("wb"), False, copies, [[Sym(k), x, ret(r, v)] for k, x, r, v in c["items"]]])
+
+
+def run_wb(c):
+    """the real in-place call on a one-level container; the stored value of every key afterwards (read through the
+    container AND through the parent), and whether the rows of the parent outside the index are untouched"""
+    from tensordict import TensorDict
+    n = c["n"]
+    spec = {k: (x, r, v) for k, x, r, v in c["items"]}
+
+    def fn(*a):
+        key, item = (a[0], a[1]) if c["front"] == "named_apply" else (None, a[0])
+        if key is None:
+            key = [k for k, (x, _, _) in spec.items() if int(item.reshape(-1)[0]) == x][0]
+        x, r, v = spec[key]
+        if r == "fresh":
+            return torch.full_like(item, v)
+        if r == "same":
+            return item
+        if r == "mut":
+            return item.fill_(v)
+        if r == "mutnone":
+            item.fill_(v)
+            return None
+        return None
+    try:
+        kind = c["container"]
+        if kind == "td":
+            td = TensorDict({k: torch.full((n, 1), x) for k, x, _, _ in c["items"]}, [n])
+            parent, rows, junk = td, slice(None), None
+        else:
+            ik = kind.split(":")[1]
+            if ik == "int":
+                parent = TensorDict({k: torch.stack([torch.full((n, 1), x), torch.full((n, 1), -1)], 0) for k, x, _, _ in c["items"]}, [2, n])
+                idx, rows, junk = 0, 0, 1
+            else:
+                ev = list(range(0, 2 * n, 2))
+                parent = TensorDict({k: torch.stack([torch.full((n, 1), x), torch.full((n, 1), -1)], 1).reshape(2 * n, 1) for k, x, _, _ in c["items"]}, [2 * n])
+                idx = {"slice": slice(0, 2 * n, 2), "list": ev, "tensor": torch.tensor(ev), "mask": torch.tensor([i % 2 == 0 for i in range(2 * n)])}[ik]
+                rows, junk = slice(0, 2 * n, 2), slice(1, 2 * n, 2)
+            td = parent._get_sub_tensordict(idx)
+        if c["front"] == "apply_":
+            ret = td.apply_(fn)
+        elif c["front"] == "apply":
+            ret = td.apply(fn, inplace=True)
+        elif c["front"] == "named_apply":
+            ret = td.named_apply(fn, inplace=True)
+        else:
+            ret = td._fast_apply(fn, inplace=True)
+        got = []
+        for k, _, _, _ in c["items"]:
+            a = td.get(k).reshape(-1).tolist()
+            b = parent.get(k)[rows].reshape(-1).tolist()
+            got.append([k, a[0] if (len(set(a)) == 1 and a == b) else ["mixed", a, b]])
+        junk_ok = True if junk is None else all(bool((parent.get(k)[junk] == -1).all()) for k, _, _, _ in c["items"])
+        return {"outcome": "ok", "stored": got, "junk_ok": junk_ok, "ret_ok": (ret is td) or ret is None, "keys": list(td.keys())}
+    except Exception as e:  # noqa: BLE001
+        return {"outcome": "raise", "exc": type(e).__name__, "msg": str(e)[:160]}
+
+
+def check_wb(c, m):
+    """oracle: every key holds the value fn's result stands for (computed from the case alone; a None result after an update
+    in place is not demanded); nothing else of the parent is touched.  Correspondence: the stored values are the model's."""
+    fails, mism, cnt = [], [], {"wb": 1, "wb container:" + c["container"]: 1, "wb front:" + c["front"]: 1}
+    real = run_wb(c)
+    sig = {"call": "wb:" + c["front"], "container": c["container"]}
+    if real["outcome"] != "ok":
+        fails.append(("inplace:raise", c, real, dict(sig, kind="raise", exc=real["exc"])))
+        return fails, mism, cnt, real
+    for (k, x, r, v), (_, g) in zip(c["items"], real["stored"]):
+        cnt["wb fn:" + r] = cnt.get("wb fn:" + r, 0) + 1
+        want = {"fresh": v, "same": x, "mut": v, "none": x}.get(r)
+        if want is not None and g != want:
+            fails.append(("inplace:stored-value", c, {"key": k, "fn": r, "got": g, "want": want}, dict(sig, kind="stored-value", fn=r)))
+            break
+    if not real["junk_ok"]:
+        fails.append(("frame:parent-rows-outside-the-view-modified", c, {}, dict(sig, kind="frame-parent")))
+    if real["keys"] != [k for k, _, _, _ in c["items"]]:
+        fails.append(("inplace:keys", c, {"got": real["keys"]}, dict(sig, kind="keys")))
+    if m is not None:
+        mo = [[kv[0], kv[1]] for kv in m]
+        if mo != real["stored"]:
+            mism.append(("wb:stored", c, real["stored"], mo))
+    return fails, mism, cnt, real
+
+
 # ================================================================== driver
 def _work(args):
     torch.set_num_threads(1)
     out = []
     for (case, m) in args:
         try:
-            f, mm, cnt, real = check_case(case, m)
+            if case["kind"] == "wb":
+                f, mm, cnt, real = check_wb(case, m)
+            else:
+                f, mm, cnt, real = check_case(case, m)
         except Exception as e:  # noqa: BLE001
             import traceback
             f, mm, cnt = [], [("harness-crash", case, traceback.format_exc()[-1500:], None)], {"harness-crash": 1}
@@ -1338,6 +1490,10 @@ def main(R):
                         c["front"] = "apply_"
                         c["opts"]["checked"] = False
                         cases.append(c)
+                # the in-place write-back at one level: fn per key fresh / its argument / its argument updated / None, on a
+                # TensorDict and on a _SubTensorDict under every index kind, through the four in-place front-ends
+                for _ in range(1500 if R.quick else 12000):
+                    cases.append(gen_wb_case(R.rng))
             tim["generate_s"] += time.time() - t0
             t1 = time.time()
             lines_all = [model_line(c, c["perm"]) for c in cases]
@@ -1358,6 +1514,10 @@ def main(R):
                        sample={"front": case["front"], "opts": case["opts"], "threads": case["threads"], "kind": case["kind"]} if ci % 9973 == 0 else None)
                 R.count("front:" + case["front"])
                 R.count("kind:" + case["kind"])
+                if case["opts"]["inplace"]:
+                    R.count("inplace fn:" + case.get("fnvar", "fresh") + (" on " + case["kind"] if case["kind"] != "regular" else ""))
+                if case["kind"] == "sub":
+                    R.count("sub index:" + case.get("sub_index", "int") + (" inplace" if case["opts"]["inplace"] else ""))
                 R.count(f"threads:{case['threads']}")
                 for k, v in cnt.items():
                     R.count(k, v)
@@ -1376,13 +1536,34 @@ def main(R):
 def replay(body):
     case = body["case"]
     print("case:", json.dumps(case))
+    if case["kind"] == "wb":
+        print("want (value fn's result stands for, per key):",
+              [[k, {"fresh": v, "same": x, "mut": v, "none": x}.get(r, "not demanded")] for k, x, r, v in case["items"]])
+        print("implementation:", json.dumps(run_wb(case), default=str))
+        from .core import run_model, build_driver
+        build_driver("C20")
+        print("model:", run_model("C20", [wb_line(case)])[0])
+        return 0
     if case["kind"] == "lazy":
         print("reference:", lazy_reference(case))
     else:
         print("reference:", REF.reference(case))
         print("gray:", REF.gray_reasons(case), "patterns:", pattern_flags(case))
+    print("fn variant:", case.get("fnvar", "fresh"), " sub index:", case.get("sub_index"))
     real = run_real(case)
     print("implementation:", json.dumps(summarize(real), default=str))
+    if case["threads"]:
+        # the reference is applied to the single-threaded form, the thread-pool form is held to "equals it"
+        st = run_real(case, threads=0)
+        print("implementation (num_threads=0):", json.dumps(summarize(st), default=str))
+        if case["kind"] != "lazy":
+            ref = REF.reference(case)
+            if ref[0] == "ret" and st["outcome"] == "ok":
+                print("first difference with the reference (num_threads=0):", cmp_expected(ref[1], st["ret"]))
+    elif case["kind"] != "lazy":
+        ref = REF.reference(case)
+        if ref[0] == "ret" and real["outcome"] == "ok":
+            print("first difference with the reference:", cmp_expected(ref[1], real["ret"]))
     from .core import run_model, build_driver
     line = model_line(case, case.get("perm"))
     if line is None:
